@@ -58,6 +58,17 @@ def name_cases():
         cases.append({"routine": leaf("root", input_params=[nm], linked_params=[[nm, [[nm, "y"]]]],
                                       children=[leaf(nm, input_params=["y"], resources=[{"name": nm, "type": "additive", "value": E.sym("y")}])]),
                       "role": "link+child", "name": nm, "compiled": True})
+    # a repetition on the routine being rendered itself (only the top-level routine's repetition has a section): every
+    # sequence kind, the count a symbol, a numeric string, or -- handed over natively -- a plain integer
+    import hier as _H
+    rr = lib.Rng("c18-root-repetition")
+    for kind_seq in range(10):
+        seq = _H.gen_sequence(rr, ["N"])
+        for count, native in ((E.sym("K"), False), (E.num(5), False), (E.num(5), True), (E.num(0), True)):
+            child = leaf("c", input_params=["N"], resources=[{"name": "T", "type": "additive", "value": E.sym("N")}])
+            cases.append({"routine": leaf("root", input_params=["N", "K"], linked_params=[["N", [["c", "N"]]]], children=[child],
+                                          repetition={"count": count, "sequence": seq}),
+                          "role": "root-repetition", "name": seq["kind"], "native": native, "compiled": True})
     # every pattern of directions over four ports whose NAME order is fixed (qref keeps ports name-sorted):
     # ports of one direction separated by ports of another, in every arrangement
     for dirs in itertools.product(["input", "output", "through"], repeat=4):
@@ -73,7 +84,7 @@ def hier_cases(rng, n):
     while len(out) < n:
         r = H.gen_hierarchy(rng, max_depth=rng.randint(1, 3), p_through=0.35, p_rep=0.2, root_sized=True)
         if H.count_nodes(r) <= 8:
-            out.append({"routine": r, "role": "hierarchy", "name": "", "compiled": True})
+            out.append({"routine": r, "role": "hierarchy", "name": "", "compiled": True, "native": rng.random() < 0.5})
     return out
 
 
